@@ -50,23 +50,24 @@ def run(ctx, cases_override=None):
     th = ctx.thorough
     # ---- MC: DispatchC08 |= Inv_C08 (Doc = Impl for every name x mechanism x scenario)
     if th:
-        mc = ctx.tlc("DispatchC08", "c08_mc.cfg", files={"c08_mc.cfg": cfg(0, 2, range(5), [0, 1], False, ["lint", "ci"], MC_INV)},
+        mc = ctx.tlc("DispatchC08", "c08_mc.cfg", files={"c08_mc.cfg": cfg(0, 2, range(5), [0, 1, 2], False, ["lint", "ci"], MC_INV)},
                      timeout=3000, allow_violation=True, workers=W)
         mcs = [mc, ctx.tlc("DispatchC08", "c08_mc2.cfg", files={"c08_mc2.cfg": cfg(1, 1, [1, 3], [0], True, ["lint"], MC_INV)},
                            timeout=3000, allow_violation=True, workers=W)]
     else:
-        mcs = [ctx.tlc("DispatchC08", "c08_mc.cfg", files={"c08_mc.cfg": cfg(0, 2, [1, 3], [0, 1], False, ["lint", "ci"], MC_INV)},
+        mcs = [ctx.tlc("DispatchC08", "c08_mc.cfg", files={"c08_mc.cfg": cfg(0, 2, [1, 3], [0, 1, 2], False, ["lint", "ci"], MC_INV)},
                        timeout=3000, allow_violation=True, workers=W)]
     leads = [m["invariant_violated"] for m in mcs if m["invariant_violated"]]
     # ---- GEN
     if cases_override is None:
         if th:
-            gens = [cfg(0, 2, range(5), [0, 1], False, ["lint", "ci"], "EmitCase"),
+            gens = [cfg(0, 2, range(5), [0, 1, 2], False, ["lint", "ci"], "EmitCase"),
                     cfg(1, 1, [1], [0], True, ["lint"], "EmitCase")]
         else:
             gens = [cfg(0, 1, [1], [0], False, ["lint", "ci"], "EmitCase"),
                     cfg(2, 2, [2, 3], [1], False, ["lint"], "EmitCase"),
-                    cfg(1, 1, [4], [0], False, ["ci"], "EmitCase")]
+                    cfg(1, 1, [4], [0], False, ["ci"], "EmitCase"),
+                    cfg(1, 1, [1], [2], False, ["lint"], "EmitCase")]
         cases = []
         for n, g in enumerate(gens):
             r = ctx.tlc("DispatchC08", "c08_gen%d.cfg" % n, files={"c08_gen%d.cfg" % n: g}, timeout=3000, workers=W)
